@@ -31,6 +31,7 @@
 import IgrisModel.C11.Lemmas
 import IgrisModel.C11.More
 import IgrisModel.C11.Bytes
+import IgrisModel.C11.Round3
 namespace Igris.C11
 open Igris.Proto (Byte)
 
@@ -679,5 +680,170 @@ theorem strto_no_step_wraps (W b limit : Nat) (ovf : Option Nat) (hb : 0 < b) (h
   rcases stepU_never_wraps W b limit ovf hb hW ds hds d hd st rfl with h | ⟨h1, h2⟩
   · left; exact h
   · right; exact ⟨h1, fun hno => by have := h2 hno; omega⟩
+
+/-! ## Extension round 3
+
+rand.c, the uniqueness that makes the canonical observable of the correspondence
+sound, and which element the literal bsearch returns. -/
+
+/-- rand.c is the linear congruential generator its header announces:
+`x' = ((x * 16546134871 + 513585871) mod 2^32) mod 204814687`, result `x' / 2` —
+for EVERY state `x`; the result lies in `[0, 102407343]`, so inside
+`[0, RAND_MAX]` (`RAND_MAX = INT_MAX` in compat/libc/include/stdlib.h), and the
+`(int)` conversion never sees a negative number. -/
+theorem rand_is_lcg (x : Nat) :
+    randSeed x = (x * 16546134871 + 513585871) % 2 ^ 32 % 204814687 ∧
+    randOut (randSeed x) = ((randSeed x / 2 : Nat) : Int) ∧
+    0 ≤ randOut (randSeed x) ∧ randOut (randSeed x) ≤ 102407343 ∧ randOut (randSeed x) ≤ 2 ^ 31 - 1 := by
+  have hlt := randSeed_lt x
+  have ho := randOut_of_lt (randSeed x) (by omega)
+  refine ⟨randSeed_formula x, ho, ?_, ?_, ?_⟩ <;> rw [ho] <;> omega
+
+/-- the width of `static unsigned long seed` does not matter: bits 32 and above of
+the state never influence the next state (the `(unsigned int)` cast), so a
+target with a 32-bit `unsigned long` produces the same sequence; and after the
+first call the state is below the modulus for good -/
+theorem rand_state_width_irrelevant (x k : Nat) :
+    randSeed (x + k * 2 ^ 32) = randSeed x ∧ randSeed x < 204814687 :=
+  ⟨randSeed_high_bits x k, randSeed_lt x⟩
+
+/-- `rand_r(&s)` is one step of the same generator on the caller's `unsigned int`:
+the value `rand()` would return after `srand(s)`, the new `*seedp` below the modulus -/
+theorem rand_r_is_rand_step (s : Nat) :
+    [(randR s).2] = randStream 1 (s % 2 ^ 32) ∧ (randR s).1 < 204814687 ∧ randR (s + 2 ^ 32) = randR s := by
+  refine ⟨rfl, randSeed_lt _, ?_⟩
+  unfold randR
+  rw [Nat.add_mod_right]
+
+example : randStream 3 randInit = [30021663, 54139618, 75880662] := by decide
+
+/-- The ordered key sequence is UNIQUE: when the comparator orders the elements by
+an integer key (any sign-compatible comparator: `a - b`, `±1`, `INT_MIN/INT_MAX`),
+the keys of qsort's output are the merge-sorted keys of the input - for every
+pivot stream.  Only the arrangement of elements with equal keys is left open; that
+is what the canonical form of the correspondence (`canonRuns`) abstracts from, and
+why the driver may print `mergeSort` of the keys for arrays too long to execute. -/
+theorem qsort_keys_unique {α : Type} (key : α → Int) (cmp : α → α → Int)
+    (hk : ∀ x y, (cmp x y < 0 ↔ key x < key y) ∧ (0 < cmp x y ↔ key y < key x)) (rs : List Int) (a : List α) :
+    ∃ out rs', qsort cmp rs a = some (out, rs') ∧
+      out.map key = (a.map key).mergeSort (fun x y => decide (x ≤ y)) := by
+  have hc : Consistent cmp := by
+    constructor
+    · intro a b; rw [(hk a b).1, (hk b a).2]
+    · intro a b c h1 h2
+      have := (hk a b).2; have := (hk b c).2; have := (hk a c).2
+      omega
+  obtain ⟨out, rs', h, hp, hs⟩ := qsort_sorted cmp hc rs a
+  refine ⟨out, rs', h, sorted_keys_unique key cmp ?_ out a hp hs⟩
+  intro x y
+  have := (hk x y).2
+  omega
+
+/-- hence the pivots (the state of `rand()`) have no influence on the keys -/
+theorem qsort_keys_pivot_independent {α : Type} (key : α → Int) (cmp : α → α → Int)
+    (hk : ∀ x y, (cmp x y < 0 ↔ key x < key y) ∧ (0 < cmp x y ↔ key y < key x)) (rs₁ rs₂ : List Int) (a : List α) :
+    ((qsort cmp rs₁ a).map fun r => r.1.map key) = ((qsort cmp rs₂ a).map fun r => r.1.map key) := by
+  obtain ⟨o1, r1, h1, e1⟩ := qsort_keys_unique key cmp hk rs₁ a
+  obtain ⟨o2, r2, h2, e2⟩ := qsort_keys_unique key cmp hk rs₂ a
+  rw [h1, h2]
+  simp only [Option.map_some, e1, e2]
+
+example : ∀ x y : Int × Nat, ((fun a b : Int × Nat => a.1 - b.1) x y < 0 ↔ x.1 < y.1) ∧
+    (0 < (fun a b : Int × Nat => a.1 - b.1) x y ↔ y.1 < x.1) := by intro x y; constructor <;> constructor <;> intro h <;> simp only at * <;> omega
+-- two pivot streams: the same keys, a different arrangement of the equal elements
+example : (qsort (fun a b : Int × Nat => a.1 - b.1) [0] [(0, 0), (1, 1), (0, 2), (0, 3)]).map (·.1) = some [(0, 3), (0, 2), (0, 0), (1, 1)] ∧
+    (qsort (fun a b : Int × Nat => a.1 - b.1) [1] [(0, 0), (1, 1), (0, 2), (0, 3)]).map (·.1) = some [(0, 0), (0, 3), (0, 2), (1, 1)] := by decide
+
+/-- WHICH of several equal elements: the bisection of bsearch.c never stops on
+equality and moves `left` on "key >= *mid", so it returns the LAST element of the
+run of equal elements, i.e. the one just before `upper_bound`.  (True of the code
+as it is; ISO and the property leave the choice open, so the correspondence
+compares only the run - `equalRun` - that contains the returned element.) -/
+theorem bsearch_returns_last_equal {κ α : Type} (cmp : κ → α → Int) (key : κ) (a : List α)
+    (hp : PartitionedBy cmp key a) (i : Nat) (h : bsearch cmp key a = some (some i)) :
+    upperBound cmp key a = some (i + 1) ∧ ∀ k (hk : k < a.length), i < k → cmp key a[k] ≠ 0 := by
+  have hlast := bsearch_last cmp key a hp i h
+  obtain ⟨r, hr, hr1, _⟩ := bsearch_iff cmp key a hp
+  rw [h] at hr
+  cases hr
+  obtain ⟨hi, h0⟩ := hr1 i rfl
+  refine ⟨?_, fun k hk hik => by have := hlast k hk hik; omega⟩
+  rw [upper_bound_is_first_greater cmp key a hp, firstIdx_eq _ a (i + 1) (by omega)]
+  · intro j hj hlt
+    simp only [decide_eq_false_iff_not]
+    intro hneg
+    have := (hp j i (by omega) hi).1 hneg
+    omega
+  · intro j hj hge
+    simpa using hlast j hj (by omega)
+
+example : bsearch (fun (k : Int) (e : Int) => k - e) 3 [1, 3, 3, 3, 7] = some (some 3) ∧
+    upperBound (fun (k : Int) (e : Int) => k - e) 3 [1, 3, 3, 3, 7] = some 4 ∧
+    equalRun (fun (k : Int) (e : Int) => k - e) 3 [1, 3, 3, 3, 7] 2 = (1, 3) := by decide
+
+/-- Soundness of the canonical bsearch observable: on an array laid out as ISO
+requires, the run of equal elements around ANY element comparing equal to the key
+is the bracket `[lower_bound, upper_bound - 1]` - the same for every admissible
+answer.  So two correct implementations that return different equal elements
+print the same line, and a wrong answer (an element that is not equal) cannot. -/
+theorem bsearch_equal_run_canonical {κ α : Type} (cmp : κ → α → Int) (key : κ) (a : List α)
+    (hp : PartitionedBy cmp key a) (i : Nat) (hi : i < a.length) (h0 : cmp key a[i] = 0) :
+    ∃ lo up, lowerBound cmp key a = some lo ∧ upperBound cmp key a = some up ∧
+      equalRun cmp key a i = (lo, up - 1) := by
+  obtain ⟨lo, up, r, hlo, hup, _, _, hupn, hiff, _, _⟩ := bounds_bracket_equal_range cmp key a hp
+  have hin := (hiff i hi).2 h0
+  refine ⟨lo, up, hlo, hup, equalRun_eq cmp key a lo up i hupn hin.1 hin.2 ?_ ?_ ?_⟩
+  · intro j hj h1 h2; exact (hiff j hj).1 ⟨h1, h2⟩
+  · intro j hj h1 h; have := (hiff j hj).2 h; omega
+  · intro j hj h1 h; have := (hiff j hj).2 h; omega
+
+/-- in particular the line does not depend on WHICH equal element was returned -/
+theorem bsearch_equal_run_independent {κ α : Type} (cmp : κ → α → Int) (key : κ) (a : List α)
+    (hp : PartitionedBy cmp key a) (i j : Nat) (hi : i < a.length) (hj : j < a.length)
+    (h0 : cmp key a[i] = 0) (h1 : cmp key a[j] = 0) :
+    equalRun cmp key a i = equalRun cmp key a j := by
+  obtain ⟨lo, up, hlo, hup, e1⟩ := bsearch_equal_run_canonical cmp key a hp i hi h0
+  obtain ⟨lo', up', hlo', hup', e2⟩ := bsearch_equal_run_canonical cmp key a hp j hj h1
+  rw [hlo] at hlo'; rw [hup] at hup'
+  cases hlo'; cases hup'
+  rw [e1, e2]
+
+example : equalRun (fun (k : Int) (e : Int) => k - e) 3 [1, 3, 3, 3, 7] 1 = (1, 3) ∧
+    equalRun (fun (k : Int) (e : Int) => k - e) 3 [1, 3, 3, 3, 7] 3 = (1, 3) := by decide
+
+/-- Soundness of the canonical qsort observable, for EVERY consistent comparator
+(classes, partial keys, everything-equal included) and every pivot stream: the
+canonical form of the model's output (`canonLex`: elements ordered by the
+comparator, elements comparing equal ordered by a total order `le` on whole
+elements) is the merge sort of the INPUT by that lexicographic order - a list
+function of the input alone.  So the pivots, `rand()`, the partition scheme and
+the arrangement of equal elements cannot influence the line the driver prints,
+and any implementation that leaves a permutation ordered by the comparator
+prints the same line. -/
+theorem qsort_canonical {α : Type} (cmp : α → α → Int) (hc : Consistent cmp) (le : α → α → Bool)
+    (htot : ∀ x y, (le x y || le y x) = true) (htr : ∀ x y z, le x y = true → le y z = true → le x z = true)
+    (has : ∀ x y, le x y = true → le y x = true → x = y) (rs : List Int) (a : List α) :
+    ∃ out rs', qsort cmp rs a = some (out, rs') ∧ canonLex cmp le out = a.mergeSort (lexLe cmp le) := by
+  obtain ⟨out, rs', h, hp, _⟩ := qsort_sorted cmp hc rs a
+  exact ⟨out, rs', h, canonLex_perm cmp hc le htot htr has out a hp⟩
+
+/-- … and EVERY permutation of the input has that same canonical form: the line
+the driver prints carries the multiset clause; the order clause is judged by the
+oracle on the raw output of the real code and by the run structure of the form
+the harness computes from it (`canon_runs`: runs of adjacent equal elements) -/
+theorem canonical_of_any_permutation {α : Type} (cmp : α → α → Int) (hc : Consistent cmp) (le : α → α → Bool)
+    (htot : ∀ x y, (le x y || le y x) = true) (htr : ∀ x y z, le x y = true → le y z = true → le x z = true)
+    (has : ∀ x y, le x y = true → le y x = true → x = y) (a out : List α) (hp : out.Perm a) :
+    canonLex cmp le out = a.mergeSort (lexLe cmp le) :=
+  canonLex_perm cmp hc le htot htr has out a hp
+
+-- a total order `le` exists (the hypotheses are satisfiable)
+example : (∀ x y : Int, (decide (x ≤ y) || decide (y ≤ x)) = true) ∧
+    (∀ x y z : Int, decide (x ≤ y) = true → decide (y ≤ z) = true → decide (x ≤ z) = true) ∧
+    (∀ x y : Int, decide (x ≤ y) = true → decide (y ≤ x) = true → x = y) := by
+  refine ⟨?_, ?_, ?_⟩
+  · intro x y; simp only [Bool.or_eq_true, decide_eq_true_eq]; omega
+  · intro x y z; simp only [decide_eq_true_eq]; omega
+  · intro x y; simp only [decide_eq_true_eq]; omega
 
 end Igris.C11
